@@ -400,6 +400,38 @@ func genPeerOn(rt *rapid.T, nm *hx.NodeMachine, cfg genCfg, parent int) hx.NOp {
 			}
 		}
 	}
+	// directed conflict: a pending transaction has read a key that was NEVER written (it cites no version) and does not
+	// write it itself; every other block on the state pointer creates exactly that key (the reader must leave the pool)
+	if parent == nm.Ptr && cfg.ContractPct > 0 {
+		var absent []string
+		for _, ptx := range nm.Pool {
+			for _, ie := range ptx.TxInputsExt {
+				if ie.Bucket != hx.VerifContract || len(ie.RefTxid) > 0 {
+					continue
+				}
+				writes := false
+				for _, oe := range ptx.TxOutputsExt {
+					writes = writes || (oe.Bucket == ie.Bucket && string(oe.Key) == string(ie.Key))
+				}
+				if _, known := s.KV[hx.RawKey(ie.Bucket, string(ie.Key))]; !writes && !known {
+					absent = append(absent, string(ie.Key))
+				}
+			}
+		}
+		if len(absent) > 0 && rapid.IntRange(0, 1).Draw(rt, "createabsent") == 0 {
+			k := absent[rapid.IntRange(0, len(absent)-1).Draw(rt, "absentkey")]
+			c := cfg
+			c.ContractPct = 100
+			if spec, ok := genTxSpec(rt, nm, s, c, 0, false); ok {
+				spec.Prog = append([]hx.Ins{{Op: "put", K: k, V: "created"}}, spec.Prog...)
+				if tx, _ := buildForGen(nm, &spec, s); tx != nil && s.Check(tx, h) == nil {
+					s.Apply(tx, hx.Ring[op.Proposer].Address)
+					op.Txs = append(op.Txs, spec)
+					nm.Stat["peer-creates-key-a-pending-tx-read-as-absent"]++
+				}
+			}
+		}
+	}
 	ntx := rapid.IntRange(0, 3).Draw(rt, "nptx")
 	for i := 0; i < ntx; i++ {
 		spec, ok := genTxSpec(rt, nm, s, cfg, 0, false)
